@@ -188,6 +188,50 @@ fn fields_of(list: &MorphemeList<WD>, req: InfoSubset) -> Vec<Field> {
         .collect()
 }
 
+/// on-demand split (split_into) of every morpheme in every mode whose split field is requested
+fn splits_of(list: &MorphemeList<WD>, req: InfoSubset) -> Vec<String> {
+    let mut v = vec![];
+    for i in 0..list.len() {
+        for (m, bit) in [(Mode::A, InfoSubset::SPLIT_A), (Mode::B, InfoSubset::SPLIT_B)] {
+            if !req.contains(bit) {
+                continue;
+            }
+            let r = catch(|| {
+                let mut out = MorphemeList::empty(list.dict().clone());
+                let flag = list.get(i).split_into(m, &mut out).map_err(|e| e.to_string());
+                (flag, out.iter().map(|x| (x.word_id().as_raw(), x.begin(), x.end(), x.surface().to_string())).collect::<Vec<_>>())
+            });
+            v.push(format!("morpheme {} split_into({:?}) -> {:?}", i, m, r));
+        }
+    }
+    v
+}
+
+/// compare the probe result of the history tokenizer with the one of a fresh tokenizer on the requested fields and on
+/// the on-demand splits
+fn compare_lists(what: &str, hist: &MorphemeList<WD>, fresh: &MorphemeList<WD>, req: InfoSubset) -> Option<String> {
+    match (catch(|| fields_of(hist, req)), catch(|| fields_of(fresh, req))) {
+        (Ok(a), Ok(b)) => {
+            if a != b {
+                let k = a.iter().zip(b.iter()).position(|(x, y)| x != y).unwrap_or(0);
+                return Some(format!("morpheme {} differs in a requested field ({}, fields {:?}): {:?} after the history, {:?} on a fresh tokenizer", k, what, req, a.get(k), b.get(k)));
+            }
+        }
+        (a, b) => {
+            if a.is_err() != b.is_err() {
+                return Some(format!("reading the fields panics only on one side ({}; history: {:?}, fresh: {:?})", what, a.err(), b.err()));
+            }
+            return None;
+        }
+    }
+    let (a, b) = (splits_of(hist, req), splits_of(fresh, req));
+    if a != b {
+        let k = a.iter().zip(b.iter()).position(|(x, y)| x != y).unwrap_or(0);
+        return Some(format!("on-demand split differs ({}, fields {:?}): {:?} after the history, {:?} on a fresh tokenizer", what, req, a.get(k), b.get(k)));
+    }
+    None
+}
+
 type Ev = (u8, u8, Vec<(usize, usize, u32)>);
 
 struct Impl {
@@ -375,9 +419,13 @@ fn run_case(sink: &mut Sink, w: &World, pool: &[Txt], m0: u8, ops: &[Op], probe:
     all.push(Op::Analyse(probe));
     all.push(Op::Collect(probe_list));
     let mut mode_now = m0;
+    let mut request = InfoSubset::all(); // what the user asked for: the default, or the last set_subset
     for op in &all {
         if let Op::SetMode(m) = op {
             mode_now = *m;
+        }
+        if let Op::SetSubset(x) = op {
+            request = InfoSubset::from_bits_truncate(*x);
         }
         exec(&mut im, &w.wd, &w.lx, pool, op);
         if verbose {
@@ -404,18 +452,33 @@ fn run_case(sink: &mut Sink, w: &World, pool: &[Txt], m0: u8, ops: &[Op], probe:
     } else if hist_collect != fcollect {
         bad = Some(format!("probe {:?}: collected {:?} after the history, {:?} on a fresh tokenizer", pool[probe].json(), hist_collect, fcollect));
     } else if hist_flag == 0 && hist_collect.1 == 0 {
-        let req = accum;
-        match (catch(|| fields_of(&im.lists[probe_list], req)), catch(|| fields_of(&flist, req))) {
-            (Ok(a), Ok(b)) => {
-                if a != b {
-                    let k = a.iter().zip(b.iter()).position(|(x, y)| x != y).unwrap_or(0);
-                    bad = Some(format!("probe {:?}: morpheme {} differs in a requested field: {:?} after the history, {:?} on a fresh tokenizer", pool[probe].json(), k, a.get(k), b.get(k)));
-                }
+        // (1) fresh tokenizer carrying the history tokenizer's accumulated field set
+        bad = compare_lists("same accumulated field set", &im.lists[probe_list], &flist, accum).map(|m| format!("probe {:?}: {}", pool[probe].json(), m));
+        // (2) fresh tokenizer created the way a user would: same mode, same field request (the default "all fields" or
+        //     the argument of the last set_subset); earlier mode changes may leave extra fields loaded in the history
+        //     tokenizer, so only the requested fields (and the split field of the current mode) are compared
+        if bad.is_none() {
+            let mode_bit = match mode_of(mode_now) {
+                Mode::A => InfoSubset::SPLIT_A,
+                Mode::B => InfoSubset::SPLIT_B,
+                _ => InfoSubset::empty(),
+            };
+            let req = request | mode_bit;
+            let mut utok = StatefulTokenizer::new(w.wd.clone(), mode_of(mode_now));
+            utok.set_subset(request);
+            let uflag = analyse(&mut utok, &probe_text);
+            let mut ulist = MorphemeList::empty(w.wd.clone());
+            let ucollect: Ev = match catch(|| ulist.collect_results(&mut utok)) {
+                Ok(Ok(())) => (1, 0, nodes_of(&ulist, &w.lx).iter().map(|x| (x.0, x.1, x.4)).collect()),
+                _ => (1, 2, vec![]),
+            };
+            if uflag != hist_flag || ucollect != hist_collect {
+                bad = Some(format!("probe {:?}: {:?} after the history, outcome {} / {:?} on a fresh tokenizer with field request {:?}", pool[probe].json(), hist_collect, uflag, ucollect, request));
+            } else {
+                bad = compare_lists("same field request", &im.lists[probe_list], &ulist, req).map(|m| format!("probe {:?}: {}", pool[probe].json(), m));
             }
-            (a, b) => {
-                if a.is_err() != b.is_err() {
-                    bad = Some(format!("probe {:?}: reading the fields panics only on one side (history: {:?}, fresh: {:?})", pool[probe].json(), a.err(), b.err()));
-                }
+            if verbose {
+                println!("user request  : {:?}\nhistory splits: {:?}\nfresh splits  : {:?}", request, splits_of(&im.lists[probe_list], req), splits_of(&ulist, req));
             }
         }
     }
@@ -444,7 +507,7 @@ fn run_case(sink: &mut Sink, w: &World, pool: &[Txt], m0: u8, ops: &[Op], probe:
         }
     }
     let desc = json!({"kind": "c10", "system_csv": w.sys_csv, "user_csvs": w.user_csvs,
-        "lexica": w.lx.words.iter().map(|x| json!([x.dic, x.idx, x.key, x.cost, x.indexed, x.a, x.b])).collect::<Vec<_>>(),
+        "lexica": w.lx.words.iter().map(|x| json!([x.dic, x.idx, x.key, x.cost, x.indexed, x.a, x.b, x.head])).collect::<Vec<_>>(),
         "pool": pool.iter().map(|t| t.json()).collect::<Vec<_>>(), "initial_mode": m0,
         "ops": ops.iter().map(op_json).collect::<Vec<_>>(), "probe": probe, "probe_list": probe_list});
     let cops: Vec<String> = all.iter().filter_map(|o| cop(o, pool)).map(|s| format!("({})", s)).collect();
@@ -507,7 +570,7 @@ fn gen_pool(rng: &mut Rng, lx: &Lexica) -> Vec<Txt> {
 pub fn run(args: &Args) {
     let mut sink = Sink::new("C10", &args.out, &["Model.TokState"], args.seed, &args.tier);
     sink.shard_size = 60;
-    sink.rule("per generated dictionary (as in C09, with DefaultInputTextPlugin + length-changing rewrite.def and a path rewrite plugin that fails on '!'): a pool of texts (empty, short, long, oversized for start_build, oversized after rewriting, late-failing) and random sequences of 1..9 operations {set_mode, set_subset, analyse, new list, collect into a possibly reused list, split_into, lookup} on one StatefulTokenizer, then a probe (analyse + collect into a possibly reused list) compared in outcome, boundaries, word ids and every requested field with a fresh tokenizer of the same mode and field request; non-trivial = the history holds at least one analysis and the probe yields tokens");
+    sink.rule("per generated dictionary (as in C09, with DefaultInputTextPlugin + length-changing rewrite.def and a path rewrite plugin that fails on '!'): a pool of texts (empty, short, long, oversized for start_build, oversized after rewriting, late-failing) and random sequences of 1..9 operations {set_mode, set_subset, analyse, new list, collect into a possibly reused list, split_into, lookup} on one StatefulTokenizer, then a probe (analyse + collect into a possibly reused list) compared in outcome, boundaries, word ids, every requested field and the on-demand split (split_into A/B) of every morpheme with (1) a fresh tokenizer carrying the same accumulated field set and (2) a fresh tokenizer of the same mode given the user's field request (default or last set_subset); non-trivial = the history holds at least one analysis and the probe yields tokens");
     let res = prepare_resources(&args.work);
     let cfg = config_json(&res, "");
     if let Some(p) = &args.replay {
@@ -516,7 +579,7 @@ pub fn run(args: &Args) {
         let mut lx = Lexica::default();
         let units = |x: &Value| -> Vec<(usize, u32, bool)> { x.as_array().unwrap().iter().map(|u| (u[0].as_u64().unwrap() as usize, u[1].as_u64().unwrap() as u32, u[2].as_bool().unwrap())).collect() };
         for x in c["lexica"].as_array().unwrap() {
-            lx.words.push(Word { dic: x[0].as_u64().unwrap() as usize, idx: x[1].as_u64().unwrap() as u32, key: x[2].as_str().unwrap().to_string(), cost: x[3].as_i64().unwrap() as i32, indexed: x[4].as_bool().unwrap(), a: units(&x[5]), b: units(&x[6]) });
+            lx.words.push(Word { dic: x[0].as_u64().unwrap() as usize, idx: x[1].as_u64().unwrap() as u32, key: x[2].as_str().unwrap().to_string(), head: x[7].as_str().unwrap_or(x[2].as_str().unwrap()).to_string(), cost: x[3].as_i64().unwrap() as i32, indexed: x[4].as_bool().unwrap(), a: units(&x[5]), b: units(&x[6]) });
         }
         lx.ndics = 1 + lx.words.iter().map(|w| w.dic).max().unwrap_or(0);
         let w = world(lx, &cfg).expect("dictionary of the replayed case");
@@ -549,6 +612,9 @@ pub fn run(args: &Args) {
             vec![Op::NewList, Op::Analyse(10)],                                                 // late failure
             vec![Op::NewList, Op::Analyse(8), Op::Collect(0), Op::Analyse(0), Op::Collect(0)],  // longer, empty, same list
             vec![Op::NewList, Op::SetSubset(4), Op::SetMode(0), Op::Analyse(8), Op::Collect(0), Op::Lookup(0, 9, 1023)],
+            vec![Op::NewList, Op::SetMode(0), Op::Analyse(8), Op::Collect(0), Op::SetMode(2)],  // one-off mode override (C -> A -> C), default fields
+            vec![Op::NewList, Op::SetMode(1), Op::Analyse(3), Op::SetMode(0)],                  // B -> A
+            vec![Op::NewList, Op::SetSubset(1023), Op::SetMode(1), Op::SetMode(2), Op::SetMode(0), Op::SetMode(2)],
         ];
         for (k, ops) in directed.iter().enumerate() {
             let probe = if k == 3 { 0 } else { 3 + rng.below(5) as usize };
